@@ -128,6 +128,7 @@ class Ctx:
     BASE = 1 << 40   # addresses >= BASE are allocated on this path
 
     def __init__(self, engine, prefix):
+        self._keepalive = []
         self.engine = engine
         self.repo = engine.repo
         self.prefix = prefix
@@ -162,6 +163,12 @@ class Ctx:
 
     def fresh_const(self, base, sort):
         return z3.Const(self.fresh_name(base), sort)
+
+    def keep(self, term):
+        """id of a term used as a cache key; the term is kept alive for the lifetime of the path so that z3 cannot hand
+        its id to a later, different term (a recycled id made a fold axiom look 'already registered')"""
+        self._keepalive.append(term)
+        return term.get_id()
 
     # -- path condition ----------------------------------------------------
     def assume(self, f, heavy=False):
@@ -342,7 +349,7 @@ class Ctx:
         t = simp(ref.t)
         if z3.is_int_value(t) and t.as_long() in self.local_class:
             return self.local_class[t.as_long()]
-        key = t.get_id()
+        key = self.keep(t)
         if key in self.known_class:
             return self.known_class[key]
         classes = ref.classes
